@@ -67,6 +67,9 @@ def _normalise(node):
                 _normalise(v)
 
 
+_FROM_INT = re.compile(r"core::convert::num::<impl core::convert::From<([iu](?:8|16|32|64|128|size)|bool|char)> for ([iu](?:8|16|32|64|128|size))>::from$")
+
+
 class Crate:
     def __init__(self, path, text=None, data=None):
         if data is not None:
@@ -594,6 +597,10 @@ class Fn:
         if kind == "call":
             c = callee_of(node)
             args = tuple(self.expr(a, depth - 1, stop) for a in node["args"])
+            # lossless integer widening written as a conversion call is the same value as an `as` cast
+            m = _FROM_INT.search(c or "")
+            if m and len(args) == 1:
+                return ("cast", m.group(1), m.group(2), args[0])
             return ("call", c or "<indirect>", args)
         r = node["r"]
         return self.rvalue_expr(r, depth - 1, stop)
